@@ -6,9 +6,9 @@ import _lend
 
 META = dict(
     category="model_checking",
-    technique="explicit TLA+ spec (Harbor/VaultSpec) + TLC trace validation of recorded real-code behaviours and bounded implementation exploration; vault handlers predicted by the spec (conformance)",
-    text='TLC evaluates on recorded real steps that every seized vault was unsafe (exact ratio with principal+interest+closing fee at the prices in force) and liquidation was enabled, that seizure moves exactly the recorded collateral and opens exactly one auction for it, and the bounded-response ghost (blocks an unsafe, enabled vault stays unseized <= 2*ceil(len/batch)) over behaviours with batch sizes 1..3 and interleaved create/close.',
-    note="Bounded: 3 users, 4 products (two sharing a collateral denom, one stable-mint), small amounts (TLC 32-bit), decimals 1/10/100, oracle-priced debt; interest amounts are environment values taken from the log; V1 liquidation/auction generation and emergency shutdown are not driven by this family. Trusted: projection functions, TLC, bank module.",
+    technique="explicit TLA+ spec (Harbor/VaultSpec/DutchV1) + TLC trace validation of recorded real-code behaviours and bounded implementation exploration; vault handlers predicted by the spec (conformance)",
+    text='TLC evaluates on recorded real steps that every seized vault was unsafe (exact ratio with principal+interest+closing fee at the prices in force) and liquidation was enabled, that seizure moves exactly the recorded collateral and opens exactly one auction for it, and the bounded-response ghost (blocks an unsafe, enabled vault stays unseized <= 2*ceil(len/batch)) over behaviours with batch sizes 1..3 and interleaved create/close. Both generations: V1 seizures by MsgLiquidateVault and by the V1 sweep are judged by the same safety formula, C09_SeizeExact_V1 / C09_CustodyMoves_V1 state the hand-over to the auctionV1 account, C09_Live_V1 is the bounded response counted in runs of the V1 begin blocker (MC_Sweep behaviours are replayed alternately on the V2 block sweep and on the V1 sweep), Conf_V1Sweep binds the V1 sweep to spec/sweep/Sweep.tla and Conf_V1Liquidate predicts the seizure exactly (DutchV1.tla).',
+    note="Bounded: 3 users, 4 products (two sharing a collateral denom, one stable-mint), small amounts (TLC 32-bit), decimals 1/10/100, oracle-priced debt; interest amounts are environment values taken from the log; both liquidation/auction generations are driven (V2 through blocks and messages; V1 - x/liquidation, x/auction - through MsgLiquidateVault / MsgPlaceDutchBid and, because module.go does not wire its begin blockers, through direct calls of the exported BeginBlockers as environment actions V1Sweep / V1Tick); emergency shutdown is driven too (rarely in ordinary runs, headed for in every sixth run, and in a bounded exploration of the shutdown flows: MsgDepositESM / MsgExecuteESM, the esm begin blocker with price snapshot and redemption set-up after the cool-off, MsgCollateralRedemption, withdrawals in the cool-off, V2 TriggerEsm and the V1 shutdown close-out). Trusted: projection functions, TLC, bank module.",
     design_ref='4 C09',
 )
 
@@ -16,6 +16,6 @@ META = dict(
 def run(c):
     # vault side (harbor family: V2 sweep / liquidate messages / Dutch auctions) and borrow side (lend family) of the property
     c.defer = True
-    _harbor.run(c, ['seizures', 'sweepSeizures', 'blocks'])
+    _harbor.run(c, ['seizures', 'sweepSeizures', 'blocks', 'v1Seizures', 'v1MsgSeizures', 'v1SweepSeizures', 'v1SafeLiquidateAttempts', 'v1LongWaits'])
     _lend.run(c)
     return c.finish_all(["harbor", "lend"])
